@@ -148,7 +148,7 @@ def s1_design(tier, seed):
 # ----------------------------------------------------------------------------- schedules
 
 def plan(**kw):
-    d = dict(start=0, afterNotary=False, afterBoot=0, pauses=[], cancels=[], losses=[], cancelAfterBoot=[], pauseAfterBoot=[])
+    d = dict(start=0, afterNotary=False, afterBoot=0, pauses=[], cancels=[], losses=[], cancelAfterBoot=[], pauseAfterBoot=[], cancelAfterNotary=[])
     d.update(kw)
     return d
 
@@ -227,6 +227,15 @@ def scenarios(tier, seed):
     def add_stale(n, kind):
         add(n, "stale:" + kind, stale(n, kind), budget=2000 + 300 * n)
 
+    # "interrupted at any point and restarted": EVERY member is cancelled in the same block and restarted a little later.
+    # (a) relative to the block in which the Notary role appears (the window in which Notary is designated and NeoFSAlphabet
+    # is not yet - ninth seeded batch, C13f); (b) at an absolute height b (the thorough tier sweeps b over the whole run)
+    def restart_all_after_notary(n, d1, d2):
+        return [plan(cancelAfterNotary=[d1, d2]) for _ in range(n)]
+
+    def restart_all_at(n, b, gap):
+        return [plan(cancels=[[b, b + gap]]) for _ in range(n)]
+
     # trap for the witness-order defect: the signatures arrive in descending index order (member 2 at once, member 1 fifteen
     # blocks after the shared data appeared, member 3 absent), so the leader's map holds them in that insertion order and only
     # a lucky rotation of the map iteration (1/8) sorts them
@@ -245,7 +254,18 @@ def scenarios(tier, seed):
         for n in (1, 3):             # one loss each, placed by the seed over the critical submissions
             add_lossy(n, [rnd.choice(critical(n))])
         add_stale(*rnd.choice([(2, "leader-restart"), (2, "leader-pause"), (3, "leader-restart"), (4, "late-signer")]))
+        add(1, "restart-all:notary+1", restart_all_after_notary(1, 1, 3))
+        add(2, "restart-all:notary+%d" % (seed % 3), restart_all_after_notary(2, seed % 3, 2 + seed % 3 + rnd.randrange(1, 4)))
+        for b in rnd.sample(range(3, 75), 3):
+            add(1, "restart-all:@%d" % b, restart_all_at(1, b, rnd.randrange(1, 6)))
     else:
+        for b in range(2, 84):                           # the whole healthy single-member run (about 80 blocks)
+            add(1, "restart-all:@%d" % b, restart_all_at(1, b, 1 + b % 4))
+        for b in range(3, 130, 3):
+            add(2, "restart-all:@%d" % b, restart_all_at(2, b, 1 + b % 5))
+        for n in (1, 2, 3, 4):
+            for d1 in (0, 1, 2, 3, 5):
+                add(n, "restart-all:notary+%d" % d1, restart_all_after_notary(n, d1, d1 + 2))
         for n in range(1, 8):
             add(n, "plain")
             add(n, "stagger", stagger(n))
